@@ -211,6 +211,8 @@ def sums(E, cls):
         E.check(hash(sa) == hash(sb), "C03:%s.Sum:equal-but-different-hash"
                 % cls)
     ns = {}
+    if cls == 'rigid':      # sums of rigid diagrams are monoidal.Sum values
+        exec("from discopy.monoidal import *", ns)
     exec("from %s import *" % mod.__name__, ns)
     E.check(bool(eval(repr(sa), ns) == sa), "C03:%s.Sum:repr-roundtrip" % cls,
             info=repr(sa))
